@@ -326,3 +326,82 @@ theorem clientDo_spec (dialOk : Bytes → Bool) {s : St} (hinv : Inv s) (scheme 
         exact key _ _ _ i1 i2 i3 rfl rfl
 
 end Fh.Proofs.TlsRoute
+
+namespace Fh.Proofs.TlsRoute
+open Fh Fh.Model.TlsRoute
+
+/-- every attempt of a retry loop re-checks the scheme: whatever the hooks did to the request between attempts, a
+    write of attempt k went to a connection whose TLS flag is `isHTTPS` of the scheme the request had AT attempt k -/
+theorem retryOn_spec (dialOk : Bytes → Bool) (i : Nat) : ∀ (atts : List (Bytes × Bool × Bool)) (s : St), Inv s →
+    Inv (retryOn dialOk s i atts).1 ∧ Ext s (retryOn dialOk s i atts).1 ∧
+    (retryOn dialOk s i atts).2.length ≤ atts.length ∧
+    ∀ (k : Nat) (id : Nat), (retryOn dialOk s i atts).2[k]? = some (.wrote id) →
+      ∃ (a : Bytes × Bool × Bool) (hc : HC), atts[k]? = some a ∧ s.hcs[i]? = some hc ∧ hc.isTLS = isHTTPS a.1 ∧
+        (retryOn dialOk s i atts).1.conns[id]? = some (⟨hc.addr, isHTTPS a.1, i⟩ : Conn) := by
+  intro atts
+  induction atts with
+  | nil =>
+    intro s hinv
+    refine ⟨hinv, Ext.refl s, by simp [retryOn], ?_⟩
+    intro k id h; simp [retryOn] at h
+  | cons a rest ih =>
+    intro s hinv
+    obtain ⟨scheme, keep, fails⟩ := a
+    obtain ⟨g1, g2, _, _, _, g6, _⟩ := hcDo_spec dialOk hinv i scheme (keep && !fails)
+    cases hr : (hcDo dialOk s i scheme (keep && !fails)).2 with
+    | err =>
+      have e : retryOn dialOk s i ((scheme, keep, fails) :: rest) = ((hcDo dialOk s i scheme (keep && !fails)).1, [.err]) := by
+        simp only [retryOn, hr]
+      rw [e]
+      refine ⟨g1, g2, by simp, ?_⟩
+      intro k id h
+      cases k with
+      | zero => simp at h
+      | succ k => simp at h
+    | mismatch =>
+      have e : retryOn dialOk s i ((scheme, keep, fails) :: rest) = ((hcDo dialOk s i scheme (keep && !fails)).1, [.mismatch]) := by
+        simp only [retryOn, hr]
+      rw [e]
+      refine ⟨g1, g2, by simp, ?_⟩
+      intro k id h
+      cases k with
+      | zero => simp at h
+      | succ k => simp at h
+    | wrote id0 =>
+      obtain ⟨hc, e0, t0, c0⟩ := g6 id0 hr
+      cases fails with
+      | false =>
+        have e : retryOn dialOk s i ((scheme, keep, false) :: rest) = ((hcDo dialOk s i scheme (keep && !false)).1, [.wrote id0]) := by
+          simp only [retryOn, hr, Bool.false_eq_true, if_false]
+        rw [e]
+        refine ⟨g1, g2, by simp, ?_⟩
+        intro k id h
+        cases k with
+        | zero =>
+          simp at h; subst h
+          exact ⟨_, hc, rfl, e0, t0, by rw [← t0]; exact c0⟩
+        | succ k => simp at h
+      | true =>
+        have e : retryOn dialOk s i ((scheme, keep, true) :: rest) =
+            ((retryOn dialOk (hcDo dialOk s i scheme (keep && !true)).1 i rest).1,
+             .wrote id0 :: (retryOn dialOk (hcDo dialOk s i scheme (keep && !true)).1 i rest).2) := by
+          simp only [retryOn, hr, if_true]
+        rw [e]
+        obtain ⟨i1, i2, i3, i4⟩ := ih (hcDo dialOk s i scheme (keep && !true)).1 g1
+        refine ⟨i1, g2.trans i2, by simp only [List.length_cons]; omega, ?_⟩
+        intro k id h
+        cases k with
+        | zero =>
+          simp at h; subst h
+          exact ⟨_, hc, rfl, e0, t0, by rw [← t0]; exact i2.connKeep _ _ c0⟩
+        | succ k =>
+          simp only [List.getElem?_cons_succ] at h
+          obtain ⟨a, hc', ea, eh, th, ch⟩ := i4 k id h
+          -- the HostClient keeps its address and TLS setting across attempts
+          obtain ⟨hc2, e2, a2, t2⟩ := g2.hcKeep i hc e0
+          rw [e2] at eh; injection eh with eh; subst eh
+          refine ⟨a, hc, by simpa using ea, e0, ?_, ?_⟩
+          · rw [← t2]; exact th
+          · rw [← a2]; exact ch
+
+end Fh.Proofs.TlsRoute
